@@ -138,3 +138,17 @@ pub fn get_str<'a>(v: &'a Value, key: &str) -> Option<&'a str> {
 pub fn get_bool(v: &Value, key: &str) -> Option<bool> {
     v.get(key).and_then(|x| x.as_bool())
 }
+
+/// the last `n` bytes of a file (None when the file is shorter or unreadable)
+pub fn file_tail(path: &std::path::Path, n: u64) -> Option<Vec<u8>> {
+    use std::io::{Read, Seek, SeekFrom};
+    let mut f = std::fs::File::open(path).ok()?;
+    let len = f.metadata().ok()?.len();
+    if n == 0 || len < n {
+        return None;
+    }
+    f.seek(SeekFrom::Start(len - n)).ok()?;
+    let mut buf = vec![0u8; n as usize];
+    f.read_exact(&mut buf).ok()?;
+    Some(buf)
+}
